@@ -72,6 +72,10 @@ def propagate_fft(wavefront, pixelscale, shape=None, oversample=2,
                           ptype = ptype_out)
     
     if scratch is not None:
+        if scratch.dtype.kind != 'c' or scratch.dtype.itemsize < 16:
+            # (a complex64 buffer would silently round the field to single precision)
+            raise TypeError(f'scratch must be a double precision complex array, '
+                            f'not {scratch.dtype}')
         if not all(np.asarray(scratch.shape) >= fft_shape):
              raise ValueError(f'scratch must have shape greater than or '
                               f'equal to {tuple(fft_shape)}')
